@@ -60,7 +60,7 @@ def run(ck):
 
             paths = paths_of(prog, th)
             if not c["same"] and not c["bases"]:
-                paths = [q for q in paths if any(x[1].startswith("neg_batch_size ==") and x[2] is False for x in q.conds)]
+                paths = [q for q in paths if False in cond_truths(q, lambda k: k[0] == "eq" and (k[1].syms() | k[2].syms()) == {"pb", "nbs"})]
             for p in returning(paths, inst):
                 shape_err_verdict(ck, "C07.R1", inst, paths)
                 r = p.value
